@@ -276,6 +276,20 @@ def _const_env(stmts, env=None):
                 fo = f["op"]
                 if fo.get("k") == "const" and "int" in fo:
                     nested[(pl["l"], vname, f["name"])] = fo["int"]
+                if fo.get("k") in ("copy", "move") and fo["place"]["p"]:
+                    # a payload handed on: Continue((x as Ok).0)
+                    pr = [e for e in fo["place"]["p"] if e.get("k") != "deref"]
+                    key = None
+                    if len(pr) == 2 and pr[0].get("k") == "downcast" and pr[1].get("k") == "field":
+                        key = (fo["place"]["l"], pr[0].get("variant"), pr[1].get("name"))
+                    elif len(pr) == 1 and pr[0].get("k") == "field":
+                        key = (fo["place"]["l"], None, pr[0].get("name"))
+                    if key is not None:
+                        if env.get(key) is not None:
+                            nested[(pl["l"], vname, f["name"])] = env[key]
+                        for k_, v2 in list(env.items()):
+                            if isinstance(k_, tuple) and len(k_) > 3 and k_[:3] == key:
+                                nested[(pl["l"], vname, f["name"]) + k_[3:]] = v2
                 if fo.get("k") in ("copy", "move") and not fo["place"]["p"]:
                     v_ = env.get(fo["place"]["l"])
                     if v_ is not None:
